@@ -1295,6 +1295,69 @@ def witnesses(res):
         shutil.rmtree(d, ignore_errors=True)
 
 
+def txnfiles_correspondence(ctx, res):
+    """The file bookkeeping of a transaction block (model/TxnFiles.v, theorems C08_block_*): blocks made of nested calls that store a new
+    file (Stored), hand their own file to cleanup (Discarded: add on a present key), release an old file (Released) or FAIL after their
+    file was written (Failed: the recorded finding C08-F1), ended by COMMIT or ROLLBACK, run on the implementation; the number of value
+    files, of orphans and of dangling rows afterwards must be the model's."""
+    import shutil
+    BIG1, BIG2, BIG3 = 'a' * 40, 'b' * 41, 'c' * 42
+
+    def failing(c):
+        try:
+            c.set('f', BIG3, tag=('t',))
+        except Exception:  # noqa
+            pass
+    scenarios = [
+        ('fail-commit', [], [failing], True, '[Failed 2]', '[]', '[]'),
+        ('fail-store-commit', [], [failing, lambda c: c.set('j', BIG2)], True, '[Failed 2; Stored 3]', '[]', '[]'),
+        ('replace-commit', [('k', BIG1)], [lambda c: c.set('k', BIG2)], True, '[Stored 2; Released 1]', '[1]', '[1]'),
+        ('replace-rollback', [('k', BIG1)], [lambda c: c.set('k', BIG2)], False, '[Stored 2; Released 1]', '[1]', '[1]'),
+        ('add-present-commit', [('k', BIG1)], [lambda c: c.add('k', BIG2)], True, '[Discarded 2]', '[1]', '[1]'),
+        ('fail-replace-rollback', [('k', BIG1)], [failing, lambda c: c.set('k', BIG2)], False, '[Failed 2; Stored 3; Released 1]', '[1]', '[1]'),
+        ('pop-commit', [('k', BIG1)], [lambda c: c.pop('k')], True, '[Released 1]', '[1]', '[1]'),
+        ('pop-fail-commit', [('k', BIG1)], [lambda c: c.pop('k'), failing], True, '[Released 1; Failed 2]', '[1]', '[1]'),
+    ]
+    observed = []
+    for name, setup, calls, commit, events, files0, rows0 in scenarios:
+        d = ctx.scratch('c08tf')
+        try:
+            c = diskcache.Cache(d, disk_min_file_size=8)
+            for k, v in setup:
+                c.set(k, v)
+            try:
+                with c.transact():
+                    for call in calls:
+                        call(c)
+                    if not commit:
+                        raise KeyError('abort')
+            except KeyError:
+                pass
+            c.close()
+            bad, (rows, sets, files) = consistency(d)
+            observed.append((name, commit, events, files0, rows0, len(files), sum(1 for s_, _ in bad if s_ == 'unknown_file'), sum(1 for s_, _ in bad if s_ == 'missing_file')))
+        finally:
+            shutil.rmtree(d, ignore_errors=True)
+    body = ''
+    for name, commit, events, files0, rows0, nf, no, nd in observed:
+        st = ('commit (run %s %s %s)' % (files0, rows0, events)) if commit else ('rollback %s (run %s %s %s)' % (rows0, files0, rows0, events))
+        body += 'Eval vm_compute in (let st := %s in [Z.of_nat (length (fst st)); Z.of_nat (length (orphans st)); Z.of_nat (length (dangling st))]).\n' % st
+    rc, out = fw.coq_eval('c08tf', body, ['DCPrelude', 'TxnFiles', 'TxnFilesFacts'])
+    lists = fw.parse_eval_lists(out) if rc == 0 else []
+    if rc != 0 or len(lists) != len(observed):
+        res.disagreements.append(fw.Violation('model-eval', 'evaluation of model/TxnFiles.v failed: ' + out[-300:], {}, 'correspondence'))
+        return
+    for (name, commit, events, files0, rows0, nf, no, nd), term in zip(observed, lists):
+        model = fw.parse_z_list(term)
+        res.count(['txnfiles', name], nontrivial=True)
+        if model == [nf, no, nd]:
+            res.traces_validated += 1
+        else:
+            res.disagreements.append(fw.Violation('txn_files_model', 'block %s (%s, %s): the directory holds %d value files, %d orphans, %d rows without file; the model '
+                                                  'says %r' % (name, events, 'COMMIT' if commit else 'ROLLBACK', nf, no, nd, model),
+                                                  {'check': 'txn_files_model', 'scenario': name}, 'correspondence'))
+
+
 def correspondence(ctx, res, terms, recs):
     out, errors = seqdrv.model_first_mismatch('c08', terms, chunk=2)
     for e in errors:
@@ -1499,6 +1562,7 @@ def run(ctx, big=False):
     failing_calls(ctx, res, stats, thorough)
     if not ctx.search_mode:
         correspondence(ctx, res, terms, recs)
+        txnfiles_correspondence(ctx, res)
     res.extra.update({'states_checked': stats['states'], 'file_backed_rows_seen': stats['file_rows'],
                       'fault_histories': stats['fault_runs'], 'faults_that_fired': stats['faults_fired'],
                       'open_race_schedules': stats.get('open_race_runs', 0), 'removal_race_schedules': stats.get('removal_race_runs', 0),
